@@ -238,7 +238,7 @@ def run(prog, tier, extra=None):
     from ._include import include
     include(res, prog, tier, extra, "c01", ["C01.dup-scan", "C01.scan-exemptions"],
             "an input consumed twice inside one transaction or block pays out more than was consumed")
-    include(res, prog, tier, extra, "c13", ["C13.handled", "C13.derive"],
+    include(res, prog, tier, extra, "c13", ["C13.handled", "C13.derive", "C13.window-block-on-disk"],
             "every expiring output is either rebroadcast (fee booked) or its own amount is booked to the graveyard: nothing else conserves supply")
     include(res, prog, tier, extra, "c03", ["C03.tx-apply-total"],
             "a payout created when a block is wound must be withdrawn when it is unwound (and the inputs it consumed restored): otherwise a reorganisation leaves extra spendable value behind")
